@@ -6,7 +6,7 @@
    cannot mutate its argument; what IS proved is add_monotone: later arrivals leave every earlier entry untouched. *)
 From stdpp Require Import gmap.
 From Coq Require Import NArith.
-From SkV Require Import Bytes Codec Ledger ChainState ChainDefs ReplayProofs.
+From SkV Require Import Bytes Codec Ledger ChainState ChainDefs ReplayProofs BalanceProofs.
 
 Theorem C03_utxo_replay : forall sha l s ch b, arrivals sha l s -> stored sha s b -> path sha s ch b ->
   replay_utxo sha ∅ ch = cs_utxo s !! block_id sha b /\ is_Some (cs_utxo s !! block_id sha b).
@@ -24,7 +24,19 @@ Theorem C03_add_monotone : forall sha l s b s', arrivals sha l s -> admissible s
   cs_blocks s' !! h = cs_blocks s !! h /\ cs_utxo s' !! h = cs_utxo s !! h /\ cs_byheight s' !! h = cs_byheight s !! h.
 Proof. exact add_monotone. Qed.
 
+(* per-key balances = the unspent set grouped by key (value = sum, references = exactly the references), for every
+   chain whose created output keys are fresh (transaction ids do not repeat while an output is unspent: in the real
+   system a consequence of collision-freedom of sha256d plus reward-height uniqueness; kept as an explicit premise,
+   and necessary: BalanceProofs.Example.freshness_needed) *)
+Theorem C03_balances : forall sha chain u p, fresh_chain sha chain -> replay sha ∅ ∅ chain = Some (u, p) ->
+  consistent u p.
+Proof. exact balances_consistent_fresh_only. Qed.
+Theorem C03_balance_refs_nodup : forall sha chain u p, well_formed_chain sha chain ->
+  replay sha ∅ ∅ chain = Some (u, p) -> forall pk v refs, p !! pk = Some (v, refs) -> NoDup refs.
+Proof. intros sha chain u p Hw Hr pk v refs Hp. eapply balances_refs_NoDup; eauto. Qed.
+
 Print Assumptions C03_utxo_replay.
+Print Assumptions C03_balances.
 Print Assumptions C03_chain_is_path.
 Print Assumptions C03_path_unique.
 Print Assumptions C03_order_independent.
